@@ -22,7 +22,7 @@ var ev *evid.E
 
 func TestMain(m *testing.M) {
 	ev = evid.New("C03", "exploration",
-		"histories of 1..30 commands on a session for each of the 9 suites: every library command with generated field values plus a harness-defined ipmi.Command (the library's "+
+		"histories of 1..30 commands on a session for each of the 9 suites plus the three integrity-None/AES suites (authenticated flag clear, datagram ends with the payload): every library command with generated field values plus a harness-defined ipmi.Command (the library's "+
 			"extension point) with an arbitrary request NetFn (standard, group-extension, OEM) and a 0..200-byte body; a low rate of busy/garbage/bad-signature outcomes adds "+
 			"retransmissions. Every datagram is verified at the BMC from raw bytes with the BMC's own keys: RMCP header, flags, session ID, length field, 0xFF integrity pad and pad-length "+
 			"byte, next-header, AuthCode over auth-type..next-header, AES-CBC under K2[0:16] with minimal 01,02.. pad, both checksums, addresses, and the decrypted message equals the "+
@@ -50,7 +50,7 @@ type expect struct {
 func TestHistories(t *testing.T) {
 	cat := hx.Catalogue()
 	ev.Check(t, "TestHistories", ev.PickN(1500, 200000), func(t *rapid.T) {
-		suite := rapid.SampledFrom(hx.Suites9()).Draw(t, "suite")
+		suite := rapid.SampledFrom(hx.Suites12()).Draw(t, "suite")
 		c := hx.Creds{User: rapid.SampledFrom([]string{"", "admin", "0123456789abcdef"}).Draw(t, "user"), Password: []byte("pw"), Priv: 4, Suite: suite, Seed: rapid.Uint64().Draw(t, "seed")}
 		w := hx.NewWorldFor(c, true)
 		sess, err := w.T.NewV2Session(context.Background(), c.Opts())
@@ -131,14 +131,26 @@ func TestHistories(t *testing.T) {
 				if !bytes.Equal(rx.Raw[:4], ref.RMCPHeader) || rx.Raw[4] != 0x06 {
 					t.Fatalf("RMCP header / auth type: % x", rx.Raw[:5])
 				}
-				if p.PayloadType != ref.PTIPMI || !p.Encrypted || !p.Authenticated || p.SessionID != bs.ID || rx.Sess != bs || !rx.AuthOK {
+				if p.PayloadType != ref.PTIPMI || !p.Encrypted || p.SessionID != bs.ID || rx.Sess != bs || !rx.AuthOK {
 					t.Fatalf("command %d (%s): flags/session ID wrong: %+v", i, ex.name, p)
 				}
-				if len(p.AuthCode) != ref.IntegLen(suite.Integ) || int(p.PadLen) != len(p.PadBytes) || p.PadLen > 3 || p.NextHeader != 7 || len(p.AuthRange)%4 != 0 {
-					t.Fatalf("command %d (%s): trailer wrong: pad %x len %d next %#x code %d bytes", i, ex.name, p.PadBytes, p.PadLen, p.NextHeader, len(p.AuthCode))
-				}
-				if !bytes.Equal(p.AuthCode, ref.IntegSum(suite.Integ, bs.K1, p.AuthRange)) {
-					t.Fatalf("command %d (%s): AuthCode is not HMAC_K1 over auth type..next header", i, ex.name)
+				if suite.Integ == ref.IntegNone {
+					// no integrity algorithm negotiated: the authenticated flag is
+					// clear and the datagram ends with the payload (no pad, pad
+					// length, next header or AuthCode)
+					if p.Authenticated || rx.Raw[5] != 0x80 || len(rx.Raw) != 16+len(p.Payload) || len(p.AuthCode) != 0 {
+						t.Fatalf("command %d (%s): suite without integrity: header byte %#x, %d bytes follow the payload (% x)", i, ex.name, rx.Raw[5], len(rx.Raw)-16-len(p.Payload), rx.Raw[16+len(p.Payload):])
+					}
+				} else {
+					if !p.Authenticated || rx.Raw[5] != 0xC0 {
+						t.Fatalf("command %d (%s): authenticated flag not set: %+v", i, ex.name, p)
+					}
+					if len(p.AuthCode) != ref.IntegLen(suite.Integ) || int(p.PadLen) != len(p.PadBytes) || p.PadLen > 3 || p.NextHeader != 7 || len(p.AuthRange)%4 != 0 {
+						t.Fatalf("command %d (%s): trailer wrong: pad %x len %d next %#x code %d bytes", i, ex.name, p.PadBytes, p.PadLen, p.NextHeader, len(p.AuthCode))
+					}
+					if !bytes.Equal(p.AuthCode, ref.IntegSum(suite.Integ, bs.K1, p.AuthRange)) {
+						t.Fatalf("command %d (%s): AuthCode is not HMAC_K1 over auth type..next header", i, ex.name)
+					}
 				}
 				if len(p.Payload) < 32 || len(p.Payload)%16 != 0 || rx.Msg == nil || rx.ConfPad != 15-len(rx.Plain)%16 {
 					t.Fatalf("command %d (%s): confidentiality layer wrong: payload %d bytes, pad %d, message %d bytes", i, ex.name, len(p.Payload), rx.ConfPad, len(rx.Plain))
@@ -172,12 +184,13 @@ func TestHistories(t *testing.T) {
 						}
 					}
 				}
-				resid4[len(p.AuthRange)%4] = true // always 0 by construction; the pre-pad residue is what varies:
 				resid4[(12+len(p.Payload)+2)%4] = true
 				resid16[len(rx.Plain)%16] = true
 				ev.Label(fmt.Sprintf("msglen%%16=%d", len(rx.Plain)%16))
 				ev.Label(fmt.Sprintf("prepad%%4=%d", (12+len(p.Payload)+2)%4))
-				ev.Label(fmt.Sprintf("integrity-pad=%d", p.PadLen))
+				if suite.Integ != ref.IntegNone {
+					ev.Label(fmt.Sprintf("integrity-pad=%d", p.PadLen))
+				}
 				ev.Label(fmt.Sprintf("msglen%%4=%d", len(rx.Plain)%4))
 			}
 		}
@@ -196,7 +209,7 @@ func TestCoverage(t *testing.T) {
 	for i := 0; i < 16; i++ {
 		need = append(need, fmt.Sprintf("msglen%%16=%d", i))
 	}
-	for _, s := range hx.Suites9() {
+	for _, s := range hx.Suites12() {
 		need = append(need, "suite:"+s.String())
 	}
 	ev.RequireLabels(t, 1, need...)
